@@ -265,3 +265,48 @@ func Harness_C12_split() {
 	vassert(err != nil && len(got) == 0, "C12: once exhausted the stream keeps failing")
 	reach("exhausted")
 }
+
+// Harness_C11_direct: the in-memory Direct framing: a pipelined sequence of
+// records (nil, empty or short, every byte symbolic) written by one goroutine
+// arrives unchanged and in order, followed by io.EOF once the sender closed;
+// after that, sending on the closed side is an error, not a panic.
+func Harness_C11_direct() {
+	maxn := 3
+	if thorough() {
+		maxn = 4
+	}
+	n := 1 + nondetChoice("nrecords", maxn)
+	var recs [][]byte
+	for i := 0; i < n; i++ {
+		switch nondetChoice("record-shape", 3) {
+		case 0:
+			recs = append(recs, nil)
+		case 1:
+			recs = append(recs, []byte{})
+		case 2:
+			recs = append(recs, nondetBytes("record", 2))
+		}
+	}
+	tx, rx := Direct()
+	sent := false
+	go func() {
+		for _, r := range recs {
+			vassert(tx.Send(r) == nil, "C11: Direct accepts every record")
+		}
+		tx.Close()
+		sent = true
+	}()
+	for _, want := range recs {
+		got, err := rx.Recv()
+		vassert(err == nil, "C11: Direct: a record sent before the close is received without error (also a nil or empty one)")
+		vassert(verifSameBytes(got, want), "C11: Direct: records arrive byte for byte and in order")
+	}
+	_, err := rx.Recv()
+	vassert(err == io.EOF, "C11: Direct: io.EOF once the sender has closed")
+	_, err = rx.Recv()
+	vassert(err == io.EOF, "C11: Direct: and it keeps reporting it")
+	quiesce()
+	vassert(sent, "the sender finished")
+	vassert(tx.Send([]byte("x")) != nil, "C11: Direct: sending after Close is an error, not a panic")
+	reach("direct")
+}
